@@ -86,6 +86,11 @@ func runResumption(c *simkit.Choice, r *simkit.Rec) {
 	sharedKey := c.Bool(1, 2, simkit.LScen)
 	explicit := !c.Bool(1, 6, simkit.LScen)
 	clientHasCert := c.Bool(1, 2, simkit.LScen)
+	// the client's certificate is issued by an intermediate CA and travels with it
+	// (the ticket then carries two certificates)
+	clientChain := c.Bool(1, 3, simkit.LScen)
+	// application protocols configured on both ends (TLS mode): what was negotiated is reported alike
+	alpn := c.Bool(1, 3, simkit.LScen)
 	nops := c.Range(2, 6, simkit.LScen)
 	initPolicy := c.Weighted([]int{4, 1, 1, 1, 2}, simkit.LScen)
 	seed := uint64(c.Choose(1<<31, simkit.LEntropy)) + 61
@@ -137,6 +142,9 @@ func runResumption(c *simkit.Choice, r *simkit.Rec) {
 		}
 		cfg.CipherSuites = sv.suites
 		cfg.MaxVersion = sv.maxVers
+		if alpn && !gm {
+			cfg.NextProtos = []string{"h2", "sim/2"}
+		}
 		return cfg
 	}
 	mkCfg = func(sv *resSrv) {
@@ -198,11 +206,20 @@ func runResumption(c *simkit.Choice, r *simkit.Rec) {
 			cc.RootCAs = pki.Pool("caA")
 			if clientHasCert {
 				cc.Certificates = []gmtls.Certificate{pki.GM("cli")}
+				if clientChain {
+					cc.Certificates = []gmtls.Certificate{pki.GM("cliint", "caAint")}
+				}
 			}
 		} else {
 			cc.RootCAs = pki.Pool("rsaCA")
 			if clientHasCert {
 				cc.Certificates = []gmtls.Certificate{pki.GMStd("tlsclirsa")}
+				if clientChain {
+					cc.Certificates = []gmtls.Certificate{pki.GMStd("tlscliint", "rsaInt")}
+				}
+			}
+			if alpn {
+				cc.NextProtos = []string{"sim/2", "h2"}
 			}
 		}
 		return cc
@@ -501,6 +518,18 @@ func runResumption(c *simkit.Choice, r *simkit.Rec) {
 				fail("disagree", site, "version/suite differ between the ends")
 				return
 			}
+			if out.cst.NegotiatedProtocol != out.sst.NegotiatedProtocol || (alpn && !gm && out.cst.NegotiatedProtocol != "h2") {
+				fail("disagree", site, fmt.Sprintf("NegotiatedProtocol: client %q, server %q (resumed=%v, both ends configured: %v)", out.cst.NegotiatedProtocol, out.sst.NegotiatedProtocol, resumed, alpn && !gm))
+				return
+			}
+			if len(out.cst.VerifiedChains) == 0 {
+				fail("session-changed", site, fmt.Sprintf("the client reports no verified chain for the server (resumed=%v)", resumed))
+				return
+			}
+			if it != nil && resumed && it.clientCert && sv.policy >= gmtls.VerifyClientCertIfGiven && len(out.sst.VerifiedChains) == 0 {
+				fail("session-changed", site, "the server resumed a session with a verified client certificate but reports no verified chain")
+				return
+			}
 		}
 		// master secret of this connection
 		kl := reftls.ParseKeyLog(append(append(append([]byte(nil), clientLog.Bytes()...), sv.keylog.Bytes()...), evict.keylog.Bytes()...))
@@ -791,11 +820,17 @@ func runResumption(c *simkit.Choice, r *simkit.Rec) {
 				rc := &reftls.ClientCfg{Rand: simkit.NewStream(seed + uint64(step)*31), Suites: offer, ServerName: "server.sim", Ticket: ticket, Master: it.master}
 				if clientHasCert {
 					rc.Cert = ident("cli", true)
+					if clientChain {
+						rc.Cert = &reftls.Identity{Chain: [][]byte{pki.DER("cliint"), pki.DER("caAint")}, Key: pki.D("cliint")}
+					}
 				}
 				if !gm {
 					rc.Vers, rc.VersSet = reftls.VersionTLS12, true
 					if clientHasCert {
 						rc.Cert = &reftls.Identity{Chain: [][]byte{pki.DER("tlsclirsa")}, RSA: refRSA("tlsclirsa")}
+						if clientChain {
+							rc.Cert = &reftls.Identity{Chain: [][]byte{pki.DER("tlscliint"), pki.DER("rsaInt")}, RSA: refRSA("tlscliint")}
+						}
 					}
 				}
 				if len(ticket) == 0 {
